@@ -11,6 +11,7 @@ mod ev;
 mod gen;
 mod handlemc;
 mod lookup;
+mod mountmc;
 mod mutmc;
 mod procmc;
 mod pt;
@@ -37,6 +38,7 @@ fn n_items(prop: &str, tier: &str) -> usize {
         "C16" => c16::n_items(tier),
         "C15" => c15::n_items(tier),
         "C07" => procmc::n_items(tier),
+        "C06" => mountmc::n_items(tier) + sysprops::n_items(prop, tier),
         "C02" | "C03" | "C05" | "C08" | "C10" | "C11" => sysprops::n_items(prop, tier),
         _ => 0,
     }
@@ -53,6 +55,7 @@ fn run_item(prop: &str, tier: &str, idx: usize, only: Option<&Value>) -> sys::MR
         "C16" => c16::run_item(tier, idx, only),
         "C15" => c15::run_item(tier, idx, only),
         "C07" => procmc::run_item(tier, idx, only),
+        "C06" => { let nm = mountmc::n_items(tier); let engine = only.and_then(|o| o["engine"].as_str().map(|s| s.to_string())); if engine.as_deref() == Some("sysmc") { sysprops::run_item(prop, tier, idx, only) } else if engine.as_deref() == Some("mountmc") || idx < nm { mountmc::run_item(tier, idx, only) } else { sysprops::run_item(prop, tier, idx - nm, only) } }
         "C02" | "C03" | "C05" | "C08" | "C10" | "C11" => sysprops::run_item(prop, tier, idx, only),
         _ => sys::mach(format!("no engine for {}", prop)),
     }
@@ -69,6 +72,7 @@ fn report(prop: &str, tier: &str) -> Report {
         "C16" => c16::report(tier),
         "C15" => c15::report(tier),
         "C07" => procmc::report(tier),
+        "C06" => mountmc::report(tier),
         "C02" | "C03" | "C05" | "C08" | "C10" | "C11" => sysprops::report(prop, tier),
         _ => unreachable!(),
     }
